@@ -33,6 +33,10 @@ CHECKS = {
    text="Deductive (machine integers): _calc_overlapping_labels is executed symbolically with numpy-1.26 promotion and modular casts for uint8/16/32/64 inputs and symbolic labels in [1,2^24): via a chain of lemma obligations (divisor range, label ranges, product bound, no wrap, Euclidean decode, above threshold) every listed pair is proved to overlap in a voxel, every overlapping pair to be listed, none twice; _map_labels is proved to return the per-voxel mapped label without wrap-around in a fresh buffer; _get_paired_crop hands the bounding-box routine an array that is non-zero exactly where either input is; _get_smallest_fitting_uint and _check_array_integrity are value-independent and correct. Refuted lemmas are replayed by searching an adversarial label family on the real functions; a bounded end-to-end run compares all metrics under injective relabelling/re-typing.",
    note=TRUST_COMMON + "numpy promotion table and np.unique contract (npmodel.py); uint64 input goes through float64 in numpy 1.26 (exact below 2^53, A-FP); renaming-invariance of the spec itself (labels used only through equality) is by construction and composes with C01.",
    tech="contract-based deductive verification: symbolic execution with machine-integer semantics, lemma chains in z3 (NIA), replay on adversarial label families"),
+ "C04": dict(cat="proof", design="DESIGN.md 3 C04",
+   text="Deductive: map_instance_labels is executed symbolically on symbolic instance maps of every unsigned dtype (constructed by the real UnmatchedInstancePair constructor) and a symbolic label map satisfying the matcher postcondition; the fresh-label loop is proved by invariant (domain, kept entries, counter, fresh labels); posts from the statement: reference map and caller arrays unchanged, foreground unchanged, matched prediction carries exactly its reference label, unmatched prediction gets a label above every reference label, same partition except predictions of one reference; _map_labels' precondition is discharged at the call site and its body is proved in C09; match_instances relabels a copy with the matcher's map. Refuted obligations are replayed by a family search on the real function; bounded end-to-end enumeration with three matchers.",
+   note=TRUST_COMMON + "matcher postcondition (label map maps prediction labels to reference labels) from C03/C14; np.unique contract incl. spacing of distinct integers; labels below 2^24.",
+   tech="contract-based deductive verification: symbolic execution with loop invariant over a map abstraction, call-site precondition obligations, z3"),
 }
 NA_REASON = "check not built yet (build in progress, see DESIGN.md section 7)"
 def main():
